@@ -17,6 +17,9 @@ Notation used in the statements (all built from the fields of the `ell` argument
 * `latInit x y z ell = atan (z (1 + e'²) / p)`, `p = √(x² + y²)`  (the loop's seed),
 * `latStep x y z ell φ = atan ((z + ν(φ) e² sin φ) / p)`        (one pass of the loop body).
 -/
+-- domain guards (the denominators Python divides by) are kept in the statements even where the
+-- Lean proof does not need them
+set_option linter.unusedVariables false
 namespace GeodeVerif.C03
 open PyR GenR.Convert GenR.Constants
 
@@ -371,6 +374,14 @@ theorem xyz2llh_equatorial_plane (x y : ℝ) (ell : Ellipsoid)
     · simp only [abs_one, dec_def, decide_eq_true_eq]
       norm_num
   · simp [latStep]
+
+/-- all hypotheses of `xyz2llh_roundtrip_if_converged` hold together on the equatorial plane of
+any constructed ellipsoid -/
+example (x y a invf : ℝ) (ha : a ≠ 0) (hp : Real.sqrt (x ^ 2 + y ^ 2) ≠ 0) :
+    llh2xyz 0 (PyR.degrees (PyR.atan2 y x)) (Real.sqrt (x ^ 2 + y ^ 2) - a) (Ellipsoid.init a invf)
+      = (x, y, 0) :=
+  xyz2llh_roundtrip_if_converged x y 0 (Ellipsoid.init a invf) _ _ _ (init_axis_ratio a invf ha) hp
+    (xyz2llh_equatorial_plane x y _ hp).1 (xyz2llh_equatorial_plane x y _ hp).2
 
 /-! ## 5. Longitude range -/
 
